@@ -48,6 +48,13 @@ def handle (line : String) : String :=
     match ofHex h, (ks.splitOn ",").mapM String.toNat? with
     | some wire, some ks => " ".intercalate (readCalls ks { buf := [], conn := wire })
     | _, _ => "bad-op"
+  | ["chello", sec, now, h] =>
+    match ofHex sec, now.toInt?, ofHex h with
+    | some sec, some now, some rec =>
+      match finishClientHello Prim.hmacSha256 sec now rec with
+      | .ok (out, rnd) => s!"ok {toHex out} {toHex rnd}"
+      | .error e => "err " ++ e.tag
+    | _, _, _ => "bad-op"
   | ["shello", rnd, sec, h] =>
     match ofHex rnd, ofHex sec, ofHex h with
     | some rnd, some sec, some s =>
